@@ -89,5 +89,15 @@ CHECKS = {
         note="CRNAutomorphism ignores edge attributes by design (checked on node keys only); stopped_early is inconclusive. Canonical labels 1..N are not claimed by the statement.",
         technique="metamorphic + reference-model property testing with identity fault injection",
     ),
+    "C06": dict(
+        text="Reference-model testing of SubgraphSearchEngine: the result of strategies all / comp / bt (strict_cc_count on/off) must equal, in both directions, the set of label-preserving monomorphisms (resp. its component-respecting subset, resp. the fallback) enumerated by an own back-tracking matcher that is cross-checked against literal enumeration; no duplicates, inputs unmodified, and limits (max_results, threshold, pre_filter) only truncate or, past the threshold, empty the list. Domain: every isomorphism class of hosts <=4 x patterns <=3 nodes over element x hcount x order (1/40 slice of 4-node hosts in quick, complete in thorough: 3.86M pairs) plus Hypothesis planted / doubly planted / independent hosts <=9 nodes with 1-3 component patterns.",
+        note="The band between 'total exceeds the threshold' and 'every per-component count within it' is left unasserted (the docstring allows either).",
+        technique="reference-model property testing (exhaustive small pairs + Hypothesis) against brute-force monomorphism enumeration",
+    ),
+    "C07": dict(
+        text="Reference-model, differential and history testing of the isomorphism layer: GraphMatcherEngine.isomorphic / get_mappings, SubgraphMatch and graph_morphism verdicts vs brute-force bijection / injection search on all ordered pairs of class representatives <=4 nodes (quick slice / thorough 754k pairs) and Hypothesis pairs <=8 nodes (copies, one-edit neighbours, hcount-shifted copies, sub-patterns); invariance under relabelling either argument; every pre-filter (wl1_filter, use_filter, pre_filter) on vs off; and generated query histories (lists of operations over a pool of graph objects and engines with different attribute selections) where every answer must equal a fresh engine on fresh copies and the brute-force answer.",
+        note="isomorphic(g1,g2): g1 plays the host role of the hcount rule; get_mappings is held to the weaker reading on both sides (valid monomorphisms, non-empty whenever the pattern is induced-contained).",
+        technique="reference-model + differential (filters on/off) + model-based history testing",
+    ),
 }
 NOT_APPLICABLE = {}
